@@ -10,7 +10,7 @@ From Coq Require Import String List Arith Bool ZArith.
 Import ListNotations.
 From NP Require Import Base Values Arrow Abs Kernels Logical ExtArray Codec Steps
   Proofs_Views Proofs_Codec Proofs_Fields Proofs_Steps Proofs_Extras.
-From NP Require Import Dtype Names Reduce2 Proofs_Reduce2.
+From NP Require Import Dtype Names Reduce2 Proofs_Reduce2 Proofs_FromPandas.
 From NP Require Import Props.C03.
 
 Theorem C06_view_fields : forall p fs, inv_b p = true -> op_ok p (OViewFields fs) = true ->
@@ -102,6 +102,22 @@ Theorem C06_index_test_fooled_by_repeated_labels_refuted :
   flat_repeat [5%Z; 5%Z] [2; 0] = [5%Z; 5%Z] /\ flat_repeat [10; 20] [2; 0] <> [10; 20].
 Proof. exact repeated_labels_fool_the_index_test. Qed.
 Print Assumptions C06_index_test_fooled_by_repeated_labels_refuted.
+
+(* the conversion of offered flat values (pa.array(value, from_pandas=True)): Arrow-backed input is taken as it is; in
+   numpy arrays, python lists and numpy-backed pandas objects NaN means "missing": it becomes null, every other value
+   is kept, one value per offered value *)
+Theorem C06_offered_values_arrow : forall vs, from_pandas false vs = vs.
+Proof. exact from_pandas_arrow. Qed.
+Print Assumptions C06_offered_values_arrow.
+
+Theorem C06_offered_values_numpy : forall vs i, i < length vs ->
+  nth i (from_pandas true vs) VNull = (if val_eqb (nth i vs VNull) (VTok NAN_TOKEN) then VNull else nth i vs VNull).
+Proof. exact from_pandas_pointwise. Qed.
+Print Assumptions C06_offered_values_numpy.
+
+Theorem C06_offered_values_count : forall b vs, length (from_pandas b vs) = length vs.
+Proof. exact from_pandas_length. Qed.
+Print Assumptions C06_offered_values_count.
 
 Example C06_hypotheses_satisfiable :
   inv_b sample_col = true
